@@ -38,6 +38,7 @@ SMAP = 'starlark_map/src/small_map.rs'
 RNG = 'starlark/src/values/types/range/range_type.rs'
 EVALRS = 'starlark/src/eval.rs'
 CALLRS = 'starlark_syntax/src/syntax/call.rs'
+COMPR = 'starlark/src/eval/compiler/compr.rs'
 RNGG = 'starlark/src/values/types/range/globals.rs'
 
 # (unit, file, old, new, expected obligation substring)
@@ -133,6 +134,9 @@ MUTANTS = [
     ('spans', PRD, '                    let second = self.parse_test()?;\n                    self.expect(&Token::ClosingSquare)?;\n                    let r = self.last_end;', '                    let r = self.last_end;\n                    let second = self.parse_test()?;\n                    self.expect(&Token::ClosingSquare)?;', 'index_or_slice'),
     ('spans', PRD, '                    _ => Some(self.parse_test_list(false)?),\n                };\n                let r = self.last_end;', '                    _ => Some(self.parse_test_list(false)?),\n                };\n                let r = l + 6;', 'small_stmt'),
     ('smallmap', SMAP, '            self.create_index(self.len() + additional);', '            self.index = Some(Box::new(HashTable::with_capacity(self.len() + additional)));', 'C11.smallmap.reserve.wf'),
+    ('compr', COMPR, '                ClauseP::For(f) => {\n                    ifs.reverse();\n                    return Ok((Some(f), ifs));\n                }', '                ClauseP::For(f) => return Ok((Some(f), ifs)),', 'C01.compr.ifs.source_order'),
+    ('compr', COMPR, '        ifs.reverse();\n        Ok((None, ifs))', '        Ok((None, ifs))', 'C01.compr.ifs.source_order'),
+    ('compr', COMPR, '                    if let ExprCompiledBool::Const(true) = &x.node {', '                    if let ExprCompiledBool::Const(_) = &x.node {', 'C01.compr'),
     ('calls', INSTR, '        eval.with_call_stack(self.to_value(), Some(location), |eval| {\n            self.invoke(args, eval)\n        })', '        self.invoke(args, eval)', 'bc_invoke'),
     ('calls', 'starlark/src/values/layout/value.rs', '        eval.with_call_stack(self, location, |eval| {\n            self.get_ref_full().invoke(args, eval)\n        })', '        self.get_ref_full().invoke(args, eval)', 'invoke_with_loc'),
     ('strindex', STRT, 'let ind = CharIndex(i.unsigned_abs() as usize);', 'let ind = CharIndex((-i) as usize);', 'at'),
